@@ -231,34 +231,39 @@ def run(prog, tier, extra=None):
     # the lite block, in which runs of omitted transactions are merged into placeholders; the ordinal handed to Transaction::generate
     # must therefore be a counter that a placeholder advances by the number of transactions it stands for (txs_replacements), not the
     # position in the (shorter) lite list. Necessary for "contains those transactions in full": a wrong ordinal changes the outputs' keys.
-    TXGEN = CORE + "consensus::transaction::Transaction::generate"
-    gen_bodies = [b for b in prog.all_bodies() if (b.path == BLK + "generate" or b.path.startswith(BLK + "generate::{closure")) and not b.is_promoted]
+    from ._txgen import generate_sites as _gs
+    _bg, own_sites, helper_sites = _gs(prog)
     n_calls = 0
-    for gb in gen_bodies:
+    for site in own_sites + [s_ for _, _, hs in helper_sites for s_ in hs]:
+        gb = site.call_body
         gch = Chaser(gb)
-        for bb, t in gb.calls():
-            if (t.get("res") or t.get("callee")) != TXGEN or len(t["args"]) < 3:
-                continue
-            n_calls += 1
-            res.instance(R3)
+        t = gb.term(site.call_bb)
+        if len(t["args"]) < 3:
+            continue
+        n_calls += 1
+        res.instance(R3)
 
-            def depends_on_replacements(e, seen):
-                if has_field(e, "transaction::Transaction", "txs_replacements") or _callee_reads_replacements(prog, e):
-                    return True
-                for x in walk(e):
-                    if x[0] == "local" and x[1] not in seen:
-                        seen.add(x[1])
-                        for d in gb.defs(x[1]):
-                            if d[0] == "stmt" and depends_on_replacements(gch.rvalue(d[3], 0), seen):
-                                return True
-                return False
-            arg = gch.origin(t["args"][2])
-            if depends_on_replacements(arg, set()):
-                res.sample({"rule": R3, "site": gb.loc(bb), "ordinal": show(arg)[:60], "verdict": "a counter that adds txs_replacements for placeholders"})
-            else:
-                res.add(Finding(R3, "C18.ordinal|%s" % gb.path, "Block::generate hands Transaction::generate an ordinal (%s) that does not account for txs_replacements: in a lite block "
-                                "a transaction kept after a merged placeholder gets its position in the lite list, and its regenerated slips differ from the full block's"
-                                % show(arg)[:50], gb.loc(bb)))
+        def depends_on_replacements(e, seen, gb=gb, gch=gch):
+            if has_field(e, "transaction::Transaction", "txs_replacements") or _callee_reads_replacements(prog, e):
+                return True
+            for x in walk(e):
+                if x[0] == "local" and x[1] not in seen:
+                    seen.add(x[1])
+                    for d in gb.defs(x[1]):
+                        if d[0] == "stmt" and depends_on_replacements(gch.rvalue(d[3], 0), seen):
+                            return True
+            return False
+        arg = gch.origin(t["args"][2])
+        ok = depends_on_replacements(arg, set())
+        if not ok and site.form == "fold" and any(x[0] == "param" for x in walk(arg)):
+            # `fold(0, |ordinal, tx| { tx.generate(.., ordinal, ..); <next ordinal> })`: the counter is the accumulator, its step is the closure's result
+            ok = any(depends_on_replacements(gch.rvalue(d[3], 0) if d[0] == "stmt" else gch.call(d[2], d[1], 0), set()) for d in gb.defs(0) if d[0] in ("stmt", "call"))
+        if ok:
+            res.sample({"rule": R3, "site": gb.loc(site.call_bb), "ordinal": show(arg)[:60], "verdict": "a counter that adds txs_replacements for placeholders"})
+        else:
+            res.add(Finding(R3, "C18.ordinal|%s" % gb.path, "Block::generate hands Transaction::generate an ordinal (%s) that does not account for txs_replacements: in a lite block "
+                            "a transaction kept after a merged placeholder gets its position in the lite list, and its regenerated slips differ from the full block's"
+                            % show(arg)[:50], gb.loc(site.call_bb)))
     if n_calls == 0:
         res.instance(R3)
         res.add(Finding(R3, "C18.ordinal|anchors", "Block::generate no longer calls Transaction::generate (anchor moved?)", lb.loc(0)))
